@@ -304,7 +304,7 @@ def run_property(pid, tier, replay=None, quiet=False, no_evidence=False):
             # full two-way self-test of this property's rules (mutants, seeded changes, benign edits);
             # recorded in the evidence, never changes the verdict on /repo
             try:
-                r = subprocess.run([sys.executable, os.path.join(VERIF, 'selftest', 'run_mutants.py'), '--prop', pid, '--jobs', '8'],
+                r = subprocess.run([sys.executable, os.path.join(VERIF, 'selftest', 'run_mutants.py'), '--prop', pid, '--jobs', '12'],
                                    capture_output=True, text=True, timeout=3000)
                 st = {'caught': re.findall(r'^caught\s+(\S+)', r.stdout, re.M), 'silent_on_benign': re.findall(r'^silent\s+(\S+)', r.stdout, re.M),
                       'missed': re.findall(r'^(?:MISSED|infra)\s+(\S+)', r.stdout, re.M), 'skipped': re.findall(r'^skipped\s+(\S+)', r.stdout, re.M)}
